@@ -67,6 +67,25 @@ Definition delete_guarded (refuses : el -> bool) (ns : list el) (t : Z) : option
                        existsb (fun r => ra_exposed r && existsb (fun u => memz u tids) (ra_targets r)) (e_refs n)) ns
   then None else Some (delete ns t).
 
+(* several targets in ONE call (`del obj.attr`: DirectProxyAccessor.__delete__ hands all members to _delete): every purge
+   context of every target is entered before anything is removed, so one refusal anywhere leaves everything in place *)
+Definition delete_guarded_many (refuses : el -> bool) (ns : list el) (ts : list Z) : option outcome :=
+  let inT := fun n => below ns ts (e_h n) in
+  let tids := ids_of (filter inT ns) in
+  if existsb (fun n => negb (inT n) && refuses n &&
+                       existsb (fun r => ra_exposed r && existsb (fun u => memz u tids) (ra_targets r)) (e_refs n)) ns
+  then None else Some (delete_many ns ts).
+(* the same targets deleted one call after the other (`del lst[a:b]`, a declarative `delete:` list, or _delete split per
+   root as a seeded change did): (state reached, did a call raise?) *)
+Fixpoint delete_seq (refuses : el -> bool) (ns : list el) (ts : list Z) : list el * bool :=
+  match ts with
+  | [] => (ns, false)
+  | t :: r => match delete_guarded refuses ns t with
+              | None => (ns, true)
+              | Some o => delete_seq refuses (o_nodes o) r
+              end
+  end.
+
 (* ---- wrappers ---- *)
 Definition dec_optz (v : val) : option (option Z) := match v with VNone => Some None | VZ z => Some (Some z) | _ => None end.
 Definition dec_zs (v : val) : option (list Z) := match v with VL l => all_some (map as_Z l) | _ => None end.
